@@ -235,6 +235,7 @@ pub fn c06(tier: Tier) -> Check {
                non-trivial = accepted configuration with padding or variable-length content",
         assumptions: vec!["FCI builders are judged only inside a feedback packet builder (they are not packet, compound, chunk or item builders)"],
         legs: vec![
+            super::reuse::reuse_leg("C06", tier),
             Box::new(RandomLeg { name: "random-configs", cases: tier.pick(200_000, 3_000_000), make: Box::new(any_build_case), oracle: c06_oracle }),
             Box::new(RandomLeg { name: "valid-configs", cases: tier.pick(150_000, 1_800_000), make: Box::new(valid_build_case), oracle: c06_oracle }),
             Box::new(SweepLeg {
@@ -773,6 +774,7 @@ pub fn c17(tier: Tier) -> Check {
                non-trivial = accepted with slack > 0, or failing with a non-empty buffer",
         assumptions: vec!["two prefills differing in every byte expose any byte the writer leaves undefined"],
         legs: vec![
+            super::reuse::reuse_leg("C17", tier),
             Box::new(RandomLeg { name: "random-configs", cases: tier.pick(250_000, 3_600_000), make: Box::new(any_build_case), oracle: c17_oracle }),
             Box::new(RandomLeg { name: "valid-configs", cases: tier.pick(200_000, 2_400_000), make: Box::new(valid_build_case), oracle: c17_oracle }),
             Box::new(RandomLeg { name: "sdes-chunk-and-item-builders", cases: tier.pick(100_000, 900_000), make: Box::new(|| part_case(true)), oracle: c17_part_oracle }),
